@@ -80,8 +80,10 @@ def _main() -> int:
             if args.head:
                 record_generator = islice(record_generator, args.lines)
             elif args.tail:
-                record_generator = reader.records(
-                    args.priority, offset=-min(args.lines, len(reader))
+                # An offset of 0 is the first record, not "the last zero records".
+                n_tail = min(args.lines, len(reader))
+                record_generator = (
+                    reader.records(args.priority, offset=-n_tail) if n_tail > 0 else iter(())
                 )
 
             for record in record_generator:
